@@ -3,6 +3,7 @@ import Nstd.Path.Model
 import Nstd.Path.FsLib
 import Nstd.Path.FsSpec
 import Nstd.Path.FsMore
+import Nstd.Path.Obj
 /-
   Line protocol of the Path area (property C19).  Path ops are stateless:
      dir <hex> | base <hex> <hexext> | stem <hex> <hexext> | ext <hex> | simp <hex> |
@@ -154,6 +155,55 @@ def unkOf (mode : Nat) : Bytes → Bool := fun p =>
 
 def noDotDot (b : Bytes) : Bool := (kchunks b).all (fun c => c != dotdot)
 
+/-- `fsobj`: the life cycle of three File objects (Nstd/Path/Obj.lean; the theorems of PropsObj.lean are about exactly
+    these transitions).  What the system calls answer comes from the file-system model: open succeeds iff `fileOpen`
+    does (read-only flags: the world does not change), a directory is refused after the descriptor was obtained,
+    File::copy is run with a failing lseek (the world does not change either). -/
+def objRun (fs : Fs) : List String → Obj.St → String → Option String
+  | [], st, out =>
+    let st := Obj.run st [.destroy 0, .destroy 1, .destroy 2]
+    some (out ++ s!" end={Obj.held st}")
+  | it :: rest, st, out =>
+    let parts := it.splitOn ":"
+    let head := parts.headD ""
+    let c := (head.take 1).toString
+    if c == "k" then
+      match parts with
+      | [_, a, b, n] => do
+        let a ← fromHex a; let b ← fromHex b
+        if !(okFsPath a && okFsPath b && lastIsName b) || fileExists fs b || !(n == "0" || n == "1") then none
+        let readable := (fileReadAllPath fs a).isSome
+        let env : Obj.CopyEnv :=
+          if readable then (if n == "0" then .sizeSeekFail else .rewindSeekFail)
+          else if dirExists fs a then .srcDir else .srcFail
+        let (st', ok) := Obj.step st (.copy env)
+        objRun fs rest st' (out ++ s!" k={b01 ok}/{Obj.held st'} fired={b01 readable}")
+      | _ => none
+    else do
+      let i ← ((head.drop 1).toString).toNat?
+      if i > 2 then none
+      if c == "o" then
+        match parts with
+        | [_, p, fl] => do
+          let p ← fromHex p; let fl ← fl.toNat?
+          if !okFsPath p || !(fl == 1 || fl == 5) then none
+          let env : Obj.OpenEnv :=
+            if (fileOpen fs p fl).2.isSome then .ok else if dirExists fs p then .isDir else .fail
+          let (st', ok) := Obj.step st (.openF i env (fl == 5))
+          objRun fs rest st' (out ++ s!" o={b01 ok}/{Obj.held st'}")
+        | _ => none
+      else if parts.length != 1 || head.length != 2 then none
+      else if c == "c" then
+        let (st', _) := Obj.step st (.close i)
+        objRun fs rest st' (out ++ s!" c=1/{Obj.held st'}")
+      else if c == "q" then
+        let (st', r) := Obj.step st (.isOpen i)
+        objRun fs rest st' (out ++ s!" q={b01 r}/{Obj.held st'}")
+      else if c == "x" then
+        let (st', _) := Obj.step st (.destroy i)
+        objRun fs rest st' (out ++ s!" x=1/{Obj.held st'}")
+      else none
+
 def fsOp (fs : Fs) (ws : List String) : Option (Fs × String) :=
   match ws with
   | ["fsmkdir", p] => do
@@ -250,6 +300,9 @@ def fsOp (fs : Fs) (ws : List String) : Option (Fs × String) :=
         | some t => s!"cwd={toHex t}"
         | none => "cwd=fail")
   | ["fsconst", _] => pure (fs, "tmp=2f746d70 home=1")
+  | ["fsobj", script] => do
+      let r ← objRun fs (script.splitOn ",") Obj.init "obj"
+      pure (fs, r)
   | _ => none
 
 structure St where
